@@ -1,9 +1,9 @@
 (* Props/C07.v -- property C07 (placeholder: first increment, abstract merge core only). *)
-From LV Require Import Base.Bytes Model.Obj Model.XrefMerge Proofs.XrefMergeProofs.
+From LV Require Import Base.Bytes Model.Obj Model.Save Model.XrefMerge Proofs.XrefMergeProofs.
 
 (* Xref::merge over any chain of sections: every object number gets the entry of the newest section that has one *)
 Theorem C07_merge_chain_latest : forall (revs : list xref) (x0 : xref) (k : N),
-  xt_get (xr_entries (fold_left xmerge revs x0)) k = first_def (map xr_entries (x0 :: revs)) k.
+  xget (xr_entries (fold_left xmerge revs x0)) k = first_def (map xr_entries (x0 :: revs)) k.
 Proof. exact merge_chain_latest. Qed.
 
 Theorem C07_load_terminates : forall L, load_abs (load_fuel L) L <> LOutOfFuel.
